@@ -40,6 +40,9 @@ var c03Sigma = [][]string{
 	{"STARTTLS"},
 	{""},
 	{" "},
+	// one write carrying a complete command line and the beginning of the next ("NOOP⏎NO"), the
+	// client waiting for the first reply before it sends the rest ("OP⏎")
+	{"!split NOOP"},
 	{"XY"},
 	{strings.Repeat("A", 10000)},
 	{"\x00\xff\x80"},
@@ -165,6 +168,37 @@ func c03ExecUnits(c *fw.Ctx, backend string, cas any, seq [][]string, checkFrom 
 					continue
 				}
 				// command mode
+				if line == "!split NOOP" {
+					d.Log = append(d.Log, `C: "NOOP\r\nNO" (one write; the rest follows after the reply)`)
+					if err := k.Write([]byte("NOOP\r\nNO")); err != nil {
+						if k.Ended() {
+							ss.ended = true
+							break outer
+						}
+						fail("wedge|not-reading", "server is neither reading nor finished: "+err.Error())
+						break outer
+					}
+					r1 := k.ReadSMTPReply()
+					d.Log = append(d.Log, "S: "+r1.String())
+					if !r1.OK {
+						fail("reply|missing|split", "a complete command line that arrived together with the first bytes of the next one did not receive its reply while the client waited: "+r1.Why)
+						break outer
+					}
+					if p := k.Pending(); p != "" {
+						fail("reply|extra|split", fmt.Sprintf("more than one reply to one complete line; extra: %q", p))
+						break outer
+					}
+					line = "OP" // the rest of the second NOOP goes the ordinary way (and gets the ordinary checks)
+					if ss.cred {
+						// the first line was a credential; the second is whatever the server now expects
+						ss.cred = r1.Code == 334
+					} else {
+						d.Fold("NOOP", r1)
+						if r1.Code == 334 {
+							ss.cred = true
+						}
+					}
+				}
 				d.Log = append(d.Log, "C: "+clipLine(line))
 				if err := k.Send(line); err != nil {
 					if k.Ended() {
